@@ -99,7 +99,7 @@ impl World for C43 {
     }
     fn budget(&self, tier: Tier) -> (u64, u64) {
         match tier {
-            Tier::Quick => (500, 45),
+            Tier::Quick => (2000, 45),
             Tier::Thorough => (20_000, 900),
         }
     }
